@@ -262,3 +262,15 @@ Definition fresh_var (n : nat) (l : list ceq) : bool := forallb (fresh_var1 n) l
 Definition fresh_atom1 (y t : nat) (q : ceq) : bool :=
   (match q_lhs q with CLD a b => negb (Nat.eqb a y && Nat.eqb b t) | CLV _ => true end) && dfree y t (q_rhs q).
 Definition fresh_atom (y t : nat) (l : list ceq) : bool := forallb (fresh_atom1 y t) l.
+
+(* the syntactic premises of the C06 theorems for the next conversion, evaluated by the interpreter on every case:
+   the next two variable indices and every derivative atom of the next index are fresh; left-hand sides are distinct *)
+Fixpoint lhs_nodupb (l : list clhs) : bool :=
+  match l with
+  | [] => true
+  | x :: r => negb (existsb (clhs_eqb x) r) && lhs_nodupb r
+  end.
+Definition premises_hold (s : cstate) : bool :=
+  let n := length (cvars s) in
+  fresh_var n (ceqs s) && fresh_var (S n) (ceqs s) && lhs_nodupb (map q_lhs (ceqs s)) &&
+  forallb (fun t => fresh_atom n t (ceqs s)) (seq 0 (S n)).
